@@ -141,4 +141,24 @@ theorem C09_src_fixed (x K : Nat) (hx : 1 ≤ x) (hK : 1 ≤ K) :
       value s = x ∧ s.Pairwise Below ∧ ∀ t ∈ s, 0 < t.d ∧ t.d < 2 ^ K :=
   ⟨_, AC.DecompTie.fixedWindow_tie x K hx hK, C09_fixed x K 0 hK⟩
 
+/-- the translated `Sum.Int` on any sum of natural terms: never panics and returns Σ d·2^e, the `value`
+    all the exactness theorems of this file are stated over -/
+theorem C09_src_sumInt (s : List Term) :
+    AC.Gen.Program.dictSumInt (AC.DecompTie.toGTs s) = some ((value s : Nat) : Int) :=
+  AC.DecompTie.sumInt_tie s
+
+/-- the translated `Sum.Dictionary` on any sum: never panics and returns the strictly ascending list of
+    exactly the `d` that occur -/
+theorem C09_src_dictionary (s : List Term) :
+    ∃ d : List Int, AC.Gen.Program.dictSumDictionary (AC.DecompTie.toGTs s) = some d ∧
+      d.Pairwise (· < ·) ∧ ∀ a, a ∈ d ↔ ∃ t ∈ s, (t.d : Int) = a :=
+  ⟨_, AC.DecompTie.dictionary_tie s, C09_dictionary s⟩
+
+/-- the two translated functions composed, as `TestDecomposersRandom` composes them in Go:
+    `FixedWindow{K}.Decompose(x).Int()` is `x` for every `x ≥ 1`, `K ≥ 1` -/
+theorem C09_src_fixed_sum (x K : Nat) (hx : 1 ≤ x) (hK : 1 ≤ K) :
+    (AC.Gen.Program.dictFixedWindowDecompose K (x : Int)).bind AC.Gen.Program.dictSumInt = some (x : Int) := by
+  rw [AC.DecompTie.fixedWindow_tie x K hx hK, Option.bind_some, AC.DecompTie.sumInt_tie,
+    (C09_fixed x K 0 hK).1]
+
 end AC.Props.C09
